@@ -124,8 +124,9 @@ Proof. eexists. vm_compute. reflexivity. Qed.
    line (chars cs = the concatenated RFC 3629 encodings of the non-NUL scalar values cs; the line's "\n" is
    one of them), all flags and depths: each (so, eo) pair regexec reports is -1/-1 or both offsets are byte
    offsets of character boundaries of the line (off_of cs k = the offset of the k-th character, k <= |cs|).
-   A literal the parser builds is a run of whole pattern characters or -- after the brace skip of a
-   repetition suffix -- starts with a continuation byte and then never matches at a boundary. *)
+   Every string the parser looks at is continuation bytes followed by whole characters, so a literal it
+   builds is a run of whole pattern characters or starts with a continuation byte and then never matches
+   at a boundary (the latter no longer arises from valid patterns since an unclosed {m,n is rejected). *)
 Theorem C11_char_boundaries : forall pat p cflg line nsub eflg d subs c pcs cs,
   Forall scalar pcs -> pat = chars pcs ->
   Forall scalar cs -> line = chars cs ->
